@@ -126,12 +126,13 @@ func htmlCaseCustom(b, e, d []byte, extra int) Case {
 
 // expTok is what the property text promises for one construct.
 type expTok struct {
-	ty      html.TokenType
-	data    []byte // nil: not checked
-	text    []byte // nil: not checked
-	val     []byte
-	chkVal  bool
-	ctx     string // construct that produced it
+	ty     html.TokenType
+	data   []byte // nil: not checked
+	text   []byte // nil: not checked
+	val    []byte
+	chkVal bool
+	ctx    string // construct that produced it
+	key    string // violation key to use when this expectation fails (default: by kind and ctx)
 }
 
 // region is a delimited template region [p,q) of the document and the context it was put in.
@@ -141,14 +142,16 @@ type region struct {
 }
 
 type docGen struct {
-	r      *Rng
-	tb, te string // "" = no templates
-	buf    []byte
-	exp    []expTok
-	regs   []region
-	exact  bool // exp describes the whole document exactly (no construct whose outcome the property leaves open)
-	lastTx bool // last construct was text (adjacent text constructs merge)
-	tmplP  int  // probability (percent) of inserting a region where one is allowed
+	r              *Rng
+	tb, te         string // "" = no templates
+	buf            []byte
+	exp            []expTok
+	regs           []region
+	exact          bool            // exp describes the whole document exactly (no construct whose outcome the property leaves open)
+	lastTx         bool            // last construct was text (adjacent text constructs merge)
+	tmplP          int             // probability (percent) of inserting a region where one is allowed
+	allow          map[string]bool // contexts in which regions may be inserted (nil: all)
+	quoteInForeign bool            // svg/math content may contain a lone double quote (oracle only)
 }
 
 var rawNames = []string{"script", "style", "title", "textarea", "xmp", "iframe"}
@@ -210,7 +213,9 @@ func (g *docGen) tmplBody(hazards []string) string {
 					sb.WriteString(g.te)
 				case 1:
 					if len(hazards) > 0 {
-						sb.WriteString(g.r.PickStr(hazards))
+						if h := g.r.PickStr(hazards); !strings.ContainsRune(h, rune(q)) && !strings.Contains(h, "\\") {
+							sb.WriteString(h)
+						}
 					}
 				case 2:
 					sb.WriteString("\\" + string(q))
@@ -231,14 +236,44 @@ func (g *docGen) tmplBody(hazards []string) string {
 		}
 	}
 	s := sb.String()
-	// the body itself must not complete te together with what follows
-	if strings.Contains(s+g.te, g.te) && strings.Index(s+g.te, g.te) < len(s) {
-		// te occurs outside a string only if built from pieces; detect by scanning like the documentation says
-		if tmplEnd(s+g.te, g.te) != len(s)+len(g.te) {
-			return "x"
-		}
+	// the body must end outside a quoted string and must not contain te outside strings
+	if tmplEndStrict(s+g.te, g.te) != len(s)+len(g.te) {
+		return "x"
 	}
 	return s
+}
+
+// tmplEndStrict is tmplEnd, but -1 when a quoted string is not terminated.
+func tmplEndStrict(s, te string) int {
+	i := 0
+	for i < len(s) {
+		if strings.HasPrefix(s[i:], te) {
+			return i + len(te)
+		}
+		if s[i] == '"' || s[i] == '\'' {
+			q := s[i]
+			i++
+			closed := false
+			for i < len(s) {
+				if s[i] == '\\' && i+1 < len(s) {
+					i += 2
+					continue
+				}
+				if s[i] == q {
+					closed = true
+					break
+				}
+				i++
+			}
+			if !closed {
+				return -1
+			}
+			i++
+			continue
+		}
+		i++
+	}
+	return -1
 }
 
 // tmplEnd returns the length of the region body+te at the start of s: first te outside quoted strings
@@ -272,7 +307,7 @@ func tmplEnd(s, te string) int {
 
 // maybeRegion appends a region in context ctx with probability tmplP.
 func (g *docGen) maybeRegion(ctx string, hazards []string) bool {
-	if g.tb == "" || !g.r.Chance(g.tmplP, 100) {
+	if g.tb == "" || (g.allow != nil && !g.allow[ctx]) || !g.r.Chance(g.tmplP, 100) {
 		return false
 	}
 	g.region(ctx, hazards)
@@ -320,7 +355,7 @@ func (g *docGen) text() {
 }
 
 func (g *docGen) tmplToken() {
-	if g.tb == "" {
+	if g.tb == "" || (g.allow != nil && !g.allow["text"]) {
 		return
 	}
 	start := len(g.buf)
@@ -575,6 +610,7 @@ func (g *docGen) endTag(name string) {
 	start := len(g.buf)
 	g.buf = append(g.buf, "</"...)
 	g.buf = append(g.buf, name...)
+	g.maybeRegion("endtag", []string{">"})
 	w := ""
 	if g.r.Chance(1, 4) {
 		w = g.r.PickStr([]string{" ", "\t", "\n", " \r"})
@@ -627,6 +663,7 @@ func (g *docGen) rawContent(name string) {
 						g.buf = append(g.buf, g.r.PickStr([]string{"<scriptx>", "</scriptx>", "<p>", "</p>", "<", "</"})...)
 					case 2:
 						g.buf = append(g.buf, g.r.PickStr([]string{"-", "--", "->", "- ->", " "})...)
+						g.maybeRegion("script-comment", []string{"-->", "</script>"})
 					default:
 						g.buf = append(g.buf, "y"...)
 					}
@@ -636,7 +673,11 @@ func (g *docGen) rawContent(name string) {
 				g.buf = append(g.buf, "<!-- </"+"x"+lname+"> -->"...)
 			}
 		case 4:
-			g.maybeRegion("rawtext", []string{"</" + lname + ">", "</" + strings.ToUpper(lname) + " >"})
+			ctx := "rawtext"
+			if g.tb != "" && g.tb[0] == '<' {
+				ctx = "rawtext-lt" // the raw-text scanner looks at '<' before it looks for the delimiter
+			}
+			g.maybeRegion(ctx, []string{"</" + lname + ">", "</" + strings.ToUpper(lname) + " >"})
 		default:
 			g.buf = append(g.buf, g.r.PickStr([]string{"t", "1", ";", " "})...)
 		}
@@ -759,6 +800,12 @@ func (g *docGen) foreign() {
 	}
 	g.buf = append(g.buf, '>')
 	n := g.r.Intn(5)
+	quote := false
+	if g.quoteInForeign && g.r.Chance(1, 3) {
+		// a double quote in character data or inside a single-quoted attribute value: well-formed XML
+		g.buf = append(g.buf, g.r.PickStr([]string{"<text>5\" pipe</text>", "<a title='it\"s'/>", "\""})...)
+		quote = true
+	}
 	for i := 0; i < n; i++ {
 		g.buf = append(g.buf, g.r.PickStr([]string{"<g>", "</g>", "<path d=\"M0 0</" + name + ">\"/>", "t", " ", "</" + name + "x>", "<a b='c'>", "</" + name[:len(name)-1] + ">", "<!-- c -->", "<" + name + "2>", "&lt;"})...)
 		g.maybeRegion(name, []string{"</" + name + ">"})
@@ -777,13 +824,27 @@ func (g *docGen) foreign() {
 	} else if name == "xml" {
 		ty = html.XMLToken
 	}
-	g.exp = append(g.exp, expTok{ty: ty, data: d, text: []byte(name), ctx: name})
+	e := expTok{ty: ty, data: d, text: []byte(name), ctx: name}
+	if quote {
+		e.key = "c09-svg:quote"
+	}
+	g.exp = append(g.exp, e)
 	g.lastTx = false
 }
 
 // genDoc builds a document from the construct grammar.
 func genDoc(r *Rng, tb, te string, nConstructs int, tmplP int) *docGen {
-	g := &docGen{r: r, tb: tb, te: te, exact: true, tmplP: tmplP}
+	return genDocCtx(r, tb, te, nConstructs, tmplP, nil)
+}
+
+func genDocCtx(r *Rng, tb, te string, nConstructs int, tmplP int, allow map[string]bool) *docGen {
+	g := &docGen{r: r, tb: tb, te: te, exact: true, tmplP: tmplP, allow: allow}
+	buildDoc(g, nConstructs)
+	return g
+}
+
+func buildDoc(g *docGen, nConstructs int) {
+	r, tb := g.r, g.tb
 	for i := 0; i < nConstructs; i++ {
 		switch r.Intn(12) {
 		case 0, 1:
@@ -826,7 +887,6 @@ func genDoc(r *Rng, tb, te string, nConstructs int, tmplP int) *docGen {
 			g.exp = append(g.exp, expTok{ty: html.TextToken, data: d, text: d, ctx: "rawtext:plaintext"})
 		}
 	}
-	return g
 }
 
 var htmlTmplKinds = []struct {
@@ -994,9 +1054,437 @@ var htmlModel = &Model{
 	},
 }
 
+// ---- oracles: the property text checked directly on the implementation -------------------------------
+
+type obsTok struct {
+	ty       html.TokenType
+	off, end int // position of data in the input (-1: nil/empty)
+	data     []byte
+	text     []byte
+	textOff  int
+	val      []byte
+	valOff   int
+	has      bool
+	offset   int // Input.Offset() after the call
+	err      error
+}
+
+func sliceOff(base, s []byte) int {
+	if len(s) == 0 || len(base) == 0 {
+		return -1
+	}
+	d := uintptr(unsafe.Pointer(&s[0])) - uintptr(unsafe.Pointer(&base[0]))
+	if d < uintptr(len(base)) {
+		return int(d)
+	}
+	return -2
+}
+
+// lexAll drives the real lexer: until the first ErrorToken, then `extra` more calls. Returns nil on a panic.
+func lexAll(d []byte, tmpl *[2]string, extra int) (toks []obsTok, panicked interface{}) {
+	in, l := htmlNewLexer(d, tmpl)
+	base := in.Bytes()
+	panicked = catch(func() {
+		seenErr := false
+		for calls := 0; calls < len(d)+3+extra; calls++ {
+			tt, data := l.Next()
+			t := obsTok{ty: tt, off: sliceOff(base, data), data: append([]byte{}, data...), text: append([]byte{}, l.Text()...), textOff: sliceOff(base, l.Text()),
+				val: append([]byte{}, l.AttrVal()...), valOff: sliceOff(base, l.AttrVal()), has: l.HasTemplate(), offset: in.Offset(), err: l.Err()}
+			t.end = t.off + len(data)
+			toks = append(toks, t)
+			if tt == html.ErrorToken {
+				if seenErr {
+					extra--
+				}
+				seenErr = true
+				if extra <= 0 {
+					return
+				}
+			}
+		}
+	})
+	return
+}
+
+func isWS(c byte) bool { return c == ' ' || c == '\t' || c == '\n' || c == '\r' || c == '\f' }
+
+// checkInvariants: C01/C02 clauses and attribute bracketing on an arbitrary input.
+func checkInvariants(rep *Report, kind string, d []byte, tmpl *[2]string) {
+	key := fmt.Sprintf("%s:%x", kind, d)
+	viol := func(k, msg string) {
+		rep.Violate(k, fmt.Sprintf("%s on %q (delims %v)", msg, d, tmpl), map[string]interface{}{"input": hx(d), "delims": fmt.Sprint(tmpl)})
+	}
+	toks, p := lexAll(d, tmpl, 2)
+	if p != nil {
+		viol("c09-panic:"+key, fmt.Sprintf("panic %v", p))
+		return
+	}
+	pos := 0
+	inTag := false
+	firstErr := -1
+	for i, t := range toks {
+		if t.ty == html.ErrorToken {
+			firstErr = i
+			break
+		}
+		if len(t.data) == 0 {
+			viol("c09-tiling:empty:"+key, fmt.Sprintf("token %d (%v) is empty", i, t.ty))
+			return
+		}
+		if t.off < pos || t.end > len(d) {
+			viol("c09-tiling:order:"+key, fmt.Sprintf("token %d (%v) at [%d,%d) after position %d", i, t.ty, t.off, t.end, pos))
+			return
+		}
+		if t.offset != t.end {
+			viol("c09-tiling:offset:"+key, fmt.Sprintf("token %d ends at %d but Offset() is %d", i, t.end, t.offset))
+		}
+		for j := pos; j < t.off; j++ {
+			if !isWS(d[j]) || (t.ty != html.StartTagCloseToken && t.ty != html.StartTagVoidToken) {
+				viol("c09-tiling:gap:"+key, fmt.Sprintf("byte %d (%q) before token %d (%v) is not covered", j, d[j], i, t.ty))
+				return
+			}
+		}
+		// bytes: equal to the input except for the ASCII case of tag and attribute names
+		nameLo, nameHi := -1, -1
+		switch t.ty {
+		case html.StartTagToken, html.SVGToken, html.MathToken, html.XMLToken:
+			nameLo, nameHi = t.textOff, t.textOff+len(t.text)
+		case html.AttributeToken:
+			nameLo, nameHi = t.textOff, t.textOff+len(t.text)
+		case html.EndTagToken:
+			nameLo = t.off + 2
+			nameHi = nameLo
+			for nameHi < t.end && !isWS(d[nameHi]) && d[nameHi] != '>' && d[nameHi] != '/' {
+				nameHi++
+			}
+		}
+		for j := 0; j < len(t.data); j++ {
+			o, n := d[t.off+j], t.data[j]
+			if o == n {
+				continue
+			}
+			if !(o >= 'A' && o <= 'Z' && n == o+32) {
+				viol("c09-tiling:bytes:"+key, fmt.Sprintf("token %d (%v) byte %d is %q, input has %q", i, t.ty, j, n, o))
+				return
+			}
+			if !(t.off+j >= nameLo && t.off+j < nameHi) {
+				if t.ty == html.EndTagToken {
+					viol("c09-case:endtag", fmt.Sprintf("end tag %q returned as %q: bytes after the tag name are lower-cased", d[t.off:t.end], t.data))
+				} else {
+					viol("c09-case:"+key, fmt.Sprintf("token %d (%v): byte %d outside the name is lower-cased", i, t.ty, j))
+				}
+				break
+			}
+		}
+		// sub-slices
+		if len(t.text) > 0 && (t.textOff < t.off || t.textOff+len(t.text) > t.end) {
+			viol("c09-subslice:text:"+key, fmt.Sprintf("token %d (%v): Text() [%d,+%d) outside the token [%d,%d)", i, t.ty, t.textOff, len(t.text), t.off, t.end))
+		}
+		if t.ty == html.AttributeToken && len(t.val) > 0 && (t.valOff < t.off || t.valOff+len(t.val) > t.end) {
+			viol("c09-subslice:val:"+key, fmt.Sprintf("token %d: AttrVal() outside the token", i))
+		}
+		// bracketing
+		isAttrish := t.ty == html.AttributeToken || t.ty == html.StartTagCloseToken || t.ty == html.StartTagVoidToken
+		if isAttrish != inTag {
+			viol("c09-bracketing:"+key, fmt.Sprintf("token %d (%v) with inTag=%v", i, t.ty, inTag))
+			return
+		}
+		inTag = t.ty == html.StartTagToken || t.ty == html.AttributeToken
+		pos = t.end
+	}
+	if firstErr < 0 {
+		viol("c09-progress:"+key, fmt.Sprintf("no ErrorToken within %d calls", len(toks)))
+		return
+	}
+	e := toks[firstErr]
+	if e.off >= 0 || len(e.data) != 0 {
+		viol("c09-error-data:"+key, "ErrorToken with data")
+	}
+	if e.err == io.EOF {
+		for j := pos; j < len(d); j++ {
+			if !isWS(d[j]) || !inTag {
+				viol("c09-tiling:tail:"+key, fmt.Sprintf("byte %d (%q) is not covered by any token before the end-of-input report", j, d[j]))
+				break
+			}
+		}
+		if e.offset != len(d) {
+			viol("c09-eof-offset:"+key, fmt.Sprintf("end of input reported at offset %d of %d", e.offset, len(d)))
+		}
+		// sticky
+		for _, t := range toks[firstErr+1:] {
+			if t.ty != html.ErrorToken || t.err != io.EOF || t.offset != e.offset || len(t.data) != 0 {
+				viol("c09-sticky:"+key, fmt.Sprintf("after the end-of-input report a call returned %v %q err=%v", t.ty, t.data, t.err))
+			}
+		}
+	} else if e.err == nil {
+		viol("c09-error-nil:"+key, "ErrorToken with Err()==nil")
+	}
+	rep.Eval(key, len(toks) > 2, kind)
+}
+
+// checkRawText: after the start tag of a raw-text element has been closed, the content is one Text token that
+// ends at end of input or right before an end tag of that very element.
+func checkRawText(rep *Report, d []byte, tmpl *[2]string) {
+	toks, p := lexAll(d, tmpl, 0)
+	if p != nil {
+		return
+	}
+	viol := func(k, msg string) {
+		rep.Violate(k, fmt.Sprintf("%s on %q (delims %v)", msg, d, tmpl), map[string]interface{}{"input": hx(d), "delims": fmt.Sprint(tmpl)})
+	}
+	raw := ""
+	for i := 0; i < len(toks); i++ {
+		t := toks[i]
+		if t.ty == html.ErrorToken {
+			break
+		}
+		switch t.ty {
+		case html.StartTagToken:
+			raw = ""
+			switch string(t.text) {
+			case "script", "style", "title", "textarea", "xmp", "iframe", "plaintext":
+				raw = string(t.text)
+			}
+		case html.StartTagCloseToken, html.StartTagVoidToken:
+			if raw == "" || i+1 >= len(toks) {
+				continue
+			}
+			n := toks[i+1]
+			j := i + 1
+			if n.ty == html.TextToken {
+				j = i + 2
+			} else if n.ty != html.EndTagToken && n.ty != html.ErrorToken {
+				viol("c09-rawtext:markup:"+raw, fmt.Sprintf("content of <%s> tokenised as %v %q", raw, n.ty, n.data))
+				raw = ""
+				continue
+			}
+			if j < len(toks) {
+				e := toks[j]
+				if raw == "plaintext" {
+					if e.ty != html.ErrorToken {
+						viol("c09-rawtext:plaintext", fmt.Sprintf("token %v after plaintext content", e.ty))
+					}
+				} else if e.ty == html.EndTagToken {
+					if string(e.text) != raw {
+						viol("c09-rawtext:endtag-prefix", fmt.Sprintf("raw text of <%s> ended at the end tag %q whose name is %q", raw, e.data, e.text))
+					}
+				} else if e.ty != html.ErrorToken {
+					viol("c09-rawtext:end:"+raw, fmt.Sprintf("raw text of <%s> followed by %v %q", raw, e.ty, e.data))
+				}
+			}
+			raw = ""
+		}
+	}
+}
+
+func tmplPtr(tb, te string) *[2]string {
+	if tb == "" {
+		return nil
+	}
+	return &[2]string{tb, te}
+}
+
+func c09Invariants(r *Rng, tier string, rep *Report) {
+	// fixed witnesses first
+	checkInvariants(rep, "witness", []byte("</a X=Y>"), nil)
+	checkRawText(rep, []byte("<title>a</title-x>b</title>c"), nil)
+	depth := 4
+	n := 20000
+	if tier == "thorough" {
+		depth, n = 5, 600000
+	}
+	for _, tk := range htmlTmplKinds {
+		dd := depth
+		if tk.k != 0 && tier != "thorough" {
+			dd = 3
+		}
+		allSymbolStrings(htmlSymbols(tk.tb, tk.te), dd, func(d []byte) {
+			checkInvariants(rep, fmt.Sprintf("exh%d", tk.k), d, tmplPtr(tk.tb, tk.te))
+		})
+	}
+	for i := 0; i < n; i++ {
+		tk := htmlTmplKinds[i%len(htmlTmplKinds)]
+		g := genDoc(r, tk.tb, tk.te, 1+r.Intn(6), 30)
+		d := g.buf
+		if i%2 == 1 {
+			d = mutateDoc(r, d)
+		}
+		checkInvariants(rep, fmt.Sprintf("doc%d", tk.k), d, tmplPtr(tk.tb, tk.te))
+		checkRawText(rep, d, tmplPtr(tk.tb, tk.te))
+	}
+}
+
+// compareExp checks the tokens of d against the promised ones; reports the first difference.
+func compareExp(rep *Report, d []byte, tb, te string, exp []expTok) {
+	toks, p := lexAll(d, tmplPtr(tb, te), 0)
+	key := fmt.Sprintf("%s:%x", tb, d)
+	viol := func(k, msg string) {
+		rep.Violate(k, fmt.Sprintf("%s on %q (delims %q %q)", msg, d, tb, te), map[string]interface{}{"input": hx(d), "tb": tb, "te": te})
+	}
+	if p != nil {
+		viol("c09-panic:"+key, fmt.Sprintf("panic %v", p))
+		return
+	}
+	for j, e := range exp {
+		k := func(kind string) string {
+			if e.key != "" {
+				return e.key
+			}
+			return "c09-constructs:" + kind + ":" + e.ctx
+		}
+		if j >= len(toks) {
+			viol(k("missing"), fmt.Sprintf("token %d (%v, %s) missing", j, e.ty, e.ctx))
+			return
+		}
+		t := toks[j]
+		if t.ty != e.ty {
+			viol(k("type"), fmt.Sprintf("token %d: got %v %q, want %v (%s)", j, t.ty, t.data, e.ty, e.ctx))
+			return
+		}
+		if e.data != nil && !bytes.Equal(t.data, e.data) {
+			viol(k("data"), fmt.Sprintf("token %d (%v): got %q, want %q", j, t.ty, t.data, e.data))
+			return
+		}
+		if e.text != nil && !bytes.Equal(t.text, e.text) {
+			viol(k("text"), fmt.Sprintf("token %d (%v %q): Text() %q, want %q", j, t.ty, t.data, t.text, e.text))
+			return
+		}
+		if e.chkVal && !bytes.Equal(t.val, e.val) {
+			viol(k("val"), fmt.Sprintf("token %d (%v %q): AttrVal() %q, want %q", j, t.ty, t.data, t.val, e.val))
+			return
+		}
+	}
+	if len(toks) != len(exp)+1 || toks[len(toks)-1].ty != html.ErrorToken || toks[len(toks)-1].err != io.EOF {
+		viol("c09-constructs:count", fmt.Sprintf("%d tokens, want %d + end of input", len(toks), len(exp)))
+	}
+}
+
+// c09Constructs: documents from the construct grammar give exactly the promised tokens.
+func c09Constructs(r *Rng, tier string, rep *Report) {
+	n := 30000
+	if tier == "thorough" {
+		n = 1000000
+	}
+	// fixed witnesses found while reading shiftXML / shiftRawText
+	compareExp(rep, []byte("<svg><text>5\" pipe</text></svg><p>"), "", "", []expTok{
+		{ty: html.SVGToken, data: []byte("<svg><text>5\" pipe</text></svg>"), ctx: "svg", key: "c09-svg:quote"},
+		{ty: html.StartTagToken, data: []byte("<p"), ctx: "starttag"}, {ty: html.StartTagCloseToken, ctx: "close"}})
+	compareExp(rep, []byte("<title>a</title-x>b</title>"), "", "", []expTok{
+		{ty: html.StartTagToken, data: []byte("<title"), ctx: "starttag"}, {ty: html.StartTagCloseToken, ctx: "close"},
+		{ty: html.TextToken, data: []byte("a</title-x>b"), ctx: "rawtext:title", key: "c09-rawtext:endtag-prefix"},
+		{ty: html.EndTagToken, data: []byte("</title>"), ctx: "endtag"}})
+	for i := 0; i < n; i++ {
+		tk := htmlTmplKinds[i%len(htmlTmplKinds)]
+		// regions only as tokens of their own in text: the other contexts are the business of c09Templates
+		g := &docGen{r: r, tb: tk.tb, te: tk.te, exact: true, tmplP: 0, quoteInForeign: i%8 == 7}
+		buildDoc(g, 1+r.Intn(6))
+		if !g.exact {
+			continue
+		}
+		compareExp(rep, g.buf, tk.tb, tk.te, g.exp)
+		rep.Eval(fmt.Sprintf("k%d:%x", tk.k, g.buf), len(g.exp) >= 3, fmt.Sprintf("k%d", tk.k))
+	}
+}
+
+// c09Templates: a delimited region is never split and HasTemplate() is true exactly for the tokens that contain one.
+func c09Templates(r *Rng, tier string, rep *Report) {
+	n := 40000
+	if tier == "thorough" {
+		n = 1000000
+	}
+	// fixed witnesses of DESIGN.md section 2
+	fixed := []struct{ doc, tb, te, ctx string }{
+		{"<!-- {{x}} -->", "{{", "}}", "comment"}, {"<!-- {{ \"-->\" }} -->a", "{{", "}}", "comment"}, {"</a{{x}}>", "{{", "}}", "endtag"},
+		{"<svg>{{\"</svg>\"}}</svg>", "{{", "}}", "svg"}, {"<math>{{\"</math>\"}}</math>", "{{", "}}", "math"}, {"<!doctype {{\">\"}}>", "{{", "}}", "doctype"},
+		// further contexts in which the lexer does not look for delimiters (found while modelling)
+		{"<xml>{{\"</xml>\"}}</xml>", "{{", "}}", "xml"}, {"<![CDATA[{{\"]]>\"}}]]>", "{{", "}}", "cdata"},
+		{"<script><% \"</script>\" %></script>", "<%", "%>", "rawtext-lt"}, {"<script><!-- {{ \"-->\" }} --></script>", "{{", "}}", "script-comment"},
+		{"<a b=c{{ x }}>", "{{", "}}", "attrval-unquoted-mid"},
+		// and the contexts in which it does
+		{"a{{ \"<b>\" }}c", "{{", "}}", "text"}, {"<script>{{ \"</script>\" }}</script>", "{{", "}}", "rawtext"}, {"<a{{ \">\" }}>", "{{", "}}", "tagname"},
+		{"<a {{ \">\" }}b=c>", "{{", "}}", "attrname"}, {"<a b={{ \">\" }}{{x}}>", "{{", "}}", "attrval-start"}, {"<a b=\"x{{ '\"' }}\">", "{{", "}}", "attrval-quoted"},
+		{"<a b='c'{{ \">\" }}>", "{{", "}}", "attr-after"}, {"<a <% \">\" %>b=<? x ?>>", "<%", "%>", "attrname"},
+	}
+	check := func(d []byte, tb, te string, regs []region) {
+		toks, p := lexAll(d, tmplPtr(tb, te), 0)
+		if p != nil {
+			rep.Violate(fmt.Sprintf("c09-panic:%x", d), fmt.Sprintf("panic %v on %q", p, d), map[string]interface{}{"input": hx(d)})
+			return
+		}
+		for _, t := range toks {
+			if t.ty == html.ErrorToken {
+				break
+			}
+			contains := ""
+			for _, rg := range regs {
+				if rg.p < t.end && t.end < rg.q {
+					rep.Violate("c09-template:"+rg.ctx, fmt.Sprintf("region %q (in %s) is split: token %v %q ends inside it; input %q delims %q %q", d[rg.p:rg.q], rg.ctx, t.ty, t.data, d, tb, te),
+						map[string]interface{}{"input": hx(d), "tb": tb, "te": te, "context": rg.ctx})
+				}
+				if rg.p < t.off && t.off < rg.q {
+					rep.Violate("c09-template:"+rg.ctx, fmt.Sprintf("region %q (in %s) is split: token %v %q starts inside it; input %q delims %q %q", d[rg.p:rg.q], rg.ctx, t.ty, t.data, d, tb, te),
+						map[string]interface{}{"input": hx(d), "tb": tb, "te": te, "context": rg.ctx})
+				}
+				if t.off <= rg.p && rg.p < t.end {
+					contains = rg.ctx
+				}
+			}
+			if contains != "" && !t.has {
+				rep.Violate("c09-template:"+contains, fmt.Sprintf("token %v %q contains a region (in %s) but HasTemplate() is false; input %q delims %q %q", t.ty, t.data, contains, d, tb, te),
+					map[string]interface{}{"input": hx(d), "tb": tb, "te": te, "context": contains})
+			}
+			if contains == "" && t.has {
+				rep.Violate("c09-template:spurious", fmt.Sprintf("token %v %q contains no region but HasTemplate() is true; input %q delims %q %q", t.ty, t.data, d, tb, te),
+					map[string]interface{}{"input": hx(d), "tb": tb, "te": te})
+			}
+		}
+	}
+	for _, f := range fixed {
+		d := []byte(f.doc)
+		p := bytes.Index(d, []byte(f.tb))
+		q := p + len(f.tb) + tmplEnd(f.doc[p+len(f.tb):], f.te)
+		regs := []region{{p, q, f.ctx}}
+		// a second region directly behind the first (attrval-start witness)
+		if q < len(d) && bytes.HasPrefix(d[q:], []byte(f.tb)) {
+			regs = append(regs, region{q, q + len(f.tb) + tmplEnd(f.doc[q+len(f.tb):], f.te), f.ctx})
+		}
+		check(d, f.tb, f.te, regs)
+		rep.Eval("fixed:"+f.doc, true, "fixed")
+	}
+	// one kind of context per document, so that a failure is attributed to the context that causes it
+	ctxSets := [][]string{
+		{"text", "tagname", "attrname", "attrval-start", "attrval-quoted", "attr-after"}, // where the lexer looks for delimiters
+		{"rawtext", "rawtext-lt"}, {"comment"}, {"doctype"}, {"endtag"}, {"svg"}, {"math"}, {"xml"}, {"cdata"}, {"attrval-unquoted-mid"}, {"script-comment"},
+		{"text"}, {"tagname"}, {"attrname"}, {"attrval-start"}, {"attrval-quoted"}, {"attr-after"},
+	}
+	for i := 0; i < n; i++ {
+		tk := htmlTmplKinds[1+i%(len(htmlTmplKinds)-1)]
+		cs := ctxSets[(i/3)%len(ctxSets)]
+		allow := map[string]bool{}
+		for _, c := range cs {
+			allow[c] = true
+		}
+		g := genDocCtx(r, tk.tb, tk.te, 1+r.Intn(4), 45, allow)
+		// regions are exactly the recorded ones only if the rest of the document contains no delimiter: verify
+		plain := g.plainFrom(0)
+		if strings.Contains(plain, tk.tb) {
+			continue
+		}
+		check(g.buf, tk.tb, tk.te, g.regs)
+		ctx := "none"
+		if len(g.regs) > 0 {
+			ctx = cs[0]
+			if len(cs) > 2 {
+				ctx = "recognised"
+			}
+		}
+		rep.Eval(fmt.Sprintf("k%d:%x", tk.k, g.buf), len(g.regs) > 0, fmt.Sprintf("k%d/%s", tk.k, ctx))
+	}
+}
+
 func init() {
 	props["C09"] = &PropSpec{
 		Models:  []*Model{htmlModel},
-		Oracles: []*Oracle{},
+		Oracles: []*Oracle{{Name: "c09-invariants", Run: c09Invariants}, {Name: "c09-constructs", Run: c09Constructs}, {Name: "c09-templates", Run: c09Templates}},
 	}
 }
